@@ -78,7 +78,7 @@ Definition plain (c : ch) : bool := negb (ch_in c [42; 63; 91; 92]).
 (* characters a TEsc may carry: not `/`, `.`, `\` handled separately by _references; kept to the common case *)
 Definition escapable (c : ch) : bool := negb (ch_in c [47; 46]).
 (* set members that are simply themselves inside a bracket *)
-Definition setplain (c : ch) : bool := negb (ch_in c [93; 45; 91; 92; 47; 33; 94; 38; 124; 126]).
+Definition setplain (c : ch) : bool := negb (ch_in c [93; 45; 91; 92; 47; 33; 94; 38; 124; 126; 35]).
 
 Fixpoint wf (ts : list tok) : bool :=
   match ts with
@@ -266,7 +266,7 @@ Proof. destruct r as [|c r]; intros H; [reflexivity|]. cbn. unfold cSTAR. apply 
 (* ---- bracket expressions over plain members: what the `_sequence` model returns ---- *)
 Lemma setplain_facts c : setplain c = true ->
   N.eqb c cRB = false /\ N.eqb c cMINUS = false /\ N.eqb c cLB = false /\ N.eqb c cBS = false /\ N.eqb c cSL = false /\
-  N.eqb c cEX = false /\ N.eqb c cHAT = false /\ ch_in c set_operators = false.
+  N.eqb c cEX = false /\ N.eqb c cHAT = false /\ ch_in c set_operators = false /\ N.eqb c 35 = false.
 Proof.
   unfold setplain, ch_in. cbn [existsb]. rewrite !orb_false_r. intros H. apply negb_true_iff in H.
   repeat (apply orb_false_iff in H; destruct H as [? H]).
@@ -288,13 +288,13 @@ Section BrText.
     induction l as [|d l IH]; intros fuel st c i r result eh Hp Hf.
     - destruct fuel as [|[|f]]; try (cbn in Hf; lia).
       cbn [forallb] in Hp. apply andb_true_iff in Hp. destruct Hp as [Hc _].
-      destruct (setplain_facts c Hc) as [A [B [C [D [E [_ [_ F]]]]]]].
-      cbn [seq_loop]. rewrite A, B, C, D, E, F. cbn [andb negb Z.eqb next rest idx app].
+      destruct (setplain_facts c Hc) as [A [B [C [D [E [_ [_ [F F35]]]]]]]].
+      cbn [seq_loop]. rewrite A, B, C, D, E, F, F35. cbn [andb negb Z.eqb next rest idx app].
       cbn [seq_loop]. change (N.eqb 93%N cRB) with true. cbv iota. cbn [length Z.of_nat map rev app]. replace (i + 0 + 1) with (i + 1) by lia. reflexivity.
     - destruct fuel as [|f]; [cbn in Hf; lia|].
       pose proof Hp as Hp0. cbn [forallb] in Hp. apply andb_true_iff in Hp. destruct Hp as [Hc Hl].
-      destruct (setplain_facts c Hc) as [A [B [C [D [E [_ [_ F]]]]]]].
-      cbn [seq_loop]. rewrite A, B, C, D, E, F. cbn [andb negb Z.eqb next rest idx app].
+      destruct (setplain_facts c Hc) as [A [B [C [D [E [_ [_ [F F35]]]]]]]].
+      cbn [seq_loop]. rewrite A, B, C, D, E, F, F35. cbn [andb negb Z.eqb next rest idx app].
       pose proof (IH f st d (i + 1) r ([c] :: result) eh Hl ltac:(cbn [length] in Hf; lia)) as Q. eapply eq_trans; [exact Q|].
       cbn [map rev length]. rewrite <- !app_assoc. cbn [app]. rewrite Nat2Z.inj_succ.
       replace (i + 1 + Z.of_nat (length l) + 1) with (i + Z.succ (Z.of_nat (length l)) + 1) by lia. reflexivity.
